@@ -131,8 +131,32 @@ def lten_getattr(interp, t: LTen, name):
         return m(newz)
     if name == "_is_view":
         return m(lambda interp: not t.owner)
-    if name in ("detach", "contiguous"):
-        return m(lambda interp: LTen(t.shape, t.elem, storage=t.storage, fresh=t.fresh))
+    if name == "detach":
+        return m(lambda interp: _alias(t))
+    if name == "contiguous":
+        def contiguous(interp, **k):
+            # [T] x.contiguous() IS x when x is already contiguous in memory, a fresh copy otherwise; whether a given tensor
+            # (an existing .grad, an argument) is contiguous is not known: both cases are explored
+            if getattr(t, "known_contiguous", False) or interp.cx.branch(interp.cx.fresh_bool("is_contiguous")):
+                return _alias(t)
+            return LTen(t.shape, t.elem, fresh=True)
+        return m(contiguous)
+    if name in ("add_", "sub_"):
+        def inplace(interp, other, alpha=1):
+            if alpha != 1:
+                raise Unsupported("alpha of an in-place add")
+            r = lten_binop(interp, ast.Add() if name == "add_" else ast.Sub(), t, other, inplace=True)
+            if r is MISSING:
+                raise Unsupported(f"{name} operand")
+            g = getattr(t, "grad_of", None)
+            if g is not None:
+                # t IS the tensor object stored in <g>.grad: the in-place update is visible through the .grad field
+                r.grad_of = g
+                interp.cx.ghost["heap"].write_grad(interp, V.TRef(g), r)
+            elif not t.fresh:
+                raise Unsupported("in-place update of a tensor that is neither fresh nor a .grad field")
+            return r
+        return m(inplace)
     if name in ("reshape", "view"):
         def reshape(interp, *a):
             shp = a[0] if len(a) == 1 and not isinstance(a[0], (int, z3.ArithRef)) else list(a)
@@ -275,6 +299,13 @@ def lten_getitem(interp, t: LTen, idx):
         cx.oblige("prim.index.in_range", z3.And(0 <= i, i < lift(t.shape.lead[0])), kind="prim")
         return LTen(V.Shape(t.shape.lead[1:], t.shape.tail), lambda ix: t.elem([i] + list(ix)), storage=t.storage, fresh=t.fresh)
     return MISSING
+
+
+def _alias(t):
+    r = LTen(t.shape, t.elem, storage=t.storage, fresh=t.fresh)
+    if getattr(t, "grad_of", None) is not None:
+        r.grad_of = t.grad_of
+    return r
 
 
 def lten_binop(interp, op, a, b, inplace=False):
